@@ -51,9 +51,11 @@ EVAL = {
         "single": (np.array([[2.0]]), np.array([1])),
     },
 }
+# "again": the DataSet OBJECT of the previous step is handed over once more (the library scaled it and removed its outside samples in
+# place): it is either refused (ValueError) or classified at the positions it holds now;
 # "own": the classifier's own testing part handed back as it is returned (already under the learning scaling);
 # "own_reverted": the same DataSet after revert_scaling() (raw again)
-OPS = [(k, n) for k in ("call", "test") for n in ("in", "part", "out", "unl", "single", "own", "own_reverted")]
+OPS = [(k, n) for k in ("call", "test") for n in ("in", "part", "out", "unl", "single", "own", "own_reverted", "again")]
 OBSERVED = []      # what the implementation returned in the current case (classes / summaries), for the outcome fingerprint
 
 
@@ -137,8 +139,17 @@ def _run_sequence_inner(c, seq):
     L = cl.get_learning_data().get_data()[0]
     if L.size and (np.min(L) < 0.0049 or np.max(L) > 0.9951):
         issues.append(("learning_data_scaled_into_range", "learning data range [%r,%r]" % (float(np.min(L)), float(np.max(L)))))
+    prev_ds = None
     for si, (kind, name) in enumerate(steps):
-        if name.startswith("own"):
+        again = False
+        if name == "again":
+            if prev_ds is None or prev_ds.is_empty() or not prev_ds.is_scaled():
+                continue
+            again = True
+            ds = prev_ds
+            Xd, yd = np.array(ds.get_data()[0], dtype=float).copy(), np.array(ds.get_data()[1]).copy()
+            sc, inr, scin, expc, tie = _expected(cl, lo, fac, Xd, yd, prescaled=True)
+        elif name.startswith("own"):
             ds = cl.get_testing_data()
             if ds.is_empty():
                 continue
@@ -157,6 +168,9 @@ def _run_sequence_inner(c, seq):
             raised = False
         except ValueError:
             raised = True
+        prev_ds = ds
+        if again and raised:
+            continue          # re-use refused: nothing was classified
         labelled_in = inr & (yd >= 0)
         if kind == "call":
             if not inr.any():
